@@ -536,7 +536,7 @@ func (e *env) fillCSV(cs *csvCase) {
 		mult := unitMult[cs.unit]
 		v := vh.Pick(r, []int64{math.MaxInt64/mult + 1, math.MaxInt64/mult + int64(r.Intn(1000000)) + 1, 1609459200000000000, math.MaxInt64, math.MinInt64, -(math.MaxInt64/mult + 2)})
 		cols[cs.timeIdx][j] = strconv.FormatInt(v, 10)
-		cs.timeOvf[j] = true
+		cs.timeOvf[j], cs.timeOK[j] = true, true
 		cs.note += "time-overflow "
 	}
 	cs.rows = make([][]string, n)
